@@ -57,6 +57,7 @@ func (fr *frame) call(cc *ssa.CallCommon, st *State, site ssa.Value, pos token.P
 		return fr.builtin(b, cc, args, st, site, pos)
 	}
 	name := calleeName(cc)
+	fr.atCall(name, st, pos)
 	fr.noteCall(name, st)
 	if cc.IsInvoke() {
 		recv := fr.val(cc.Value)
@@ -334,4 +335,26 @@ func (fr *frame) doAppend(cc *ssa.CallCommon, args []T, st *State) T {
 // noteCall records the call in the ghost call trace (see trace.go).
 func (fr *frame) noteCall(name string, st *State) {
 	fr.c.traceCall(name, st)
+}
+
+// atCall checks the `at call F requires e` clauses of the top-level contract.
+func (fr *frame) atCall(name string, st *State, pos token.Pos) {
+	c := fr.c
+	if c.topFrame == nil || c.topFrame.contract == nil {
+		return
+	}
+	cls := c.topFrame.contract.AtCalls[name]
+	if len(cls) == 0 {
+		return
+	}
+	env := c.topFrame.env(st)
+	for _, cl := range cls {
+		t, err := env.Bool(cl.Expr)
+		if err != nil {
+			c.unsupported("at call %s requires %q: %v", name, cl.Text, err)
+			continue
+		}
+		c.oblige(st, "at-call", name+": "+cl.Text, t, pos)
+	}
+	c.atCallSeen[name]++
 }
